@@ -6,26 +6,26 @@
    points of the verif-hooks build sit exactly between them):
 
      resolve(k, name)                                              store.rs
-       R1  lock cache; cache.resolve -> hit: answer, done          :114-123, :257-272
+       R1  lock cache; cache.resolve -> hit: answer, done          :116-125, :259-274
            miss (no zone, or no such record in the zone):
-           remember the invalidation count; unlock                 :124-125
-           -- pause zonestore.resolve.after_check --               :127
-       R2  store.get(k)  (one message to the store actor)          :130
-           None: answer None, done (no DHT configured)             :163-179
-           -- pause zonestore.resolve.after_get --                 :133
-       R3  lock cache; if no invalidation since R1:                :134-136
-             ZoneCache::insert (skip if cached timestamp is newer) :301-320
-             answer from the cache                                 :274-283
-           else answer from the packet, do not cache it; unlock    :137-143
+           remember the invalidation count; unlock                 :126-127
+           -- pause zonestore.resolve.after_check --               :129
+       R2  store.get(k)  (one message to the store actor)          :132
+           None: answer None, done (no DHT configured)             :165-181
+           -- pause zonestore.resolve.after_get --                 :135
+       R3  lock cache; if no invalidation since R1:                :136-138
+             ZoneCache::insert (skip if cached timestamp is newer) :303-322
+             answer from the cache                                 :276-285
+           else answer from the packet, do not cache it; unlock    :139-145
      insert(p)
        P1  store.upsert(p) (one message to the store actor;
-           replaces unless the stored packet is more recent)       :203, signed_packets.rs:161-195
-           not an update: acknowledge false, done                  :209-212
-           -- pause zonestore.insert.after_upsert --               :206
+           replaces unless the stored packet is more recent)       :205, signed_packets.rs:163-197
+           not an update: acknowledge false, done                  :211-214
+           -- pause zonestore.insert.after_upsert --               :208
        P2  lock cache; remove(k); count the invalidation; unlock;
-           acknowledge true                                        :207-208, :322-331
+           acknowledge true                                        :209-210, :324-333
      get_signed_packet(k)
-       G1  store.get(k)                                            :188
+       G1  store.get(k)                                            :190
 
    [fx = false] is the code before the fix (no invalidation count: R3 always
    inserts).  The LRU bound (2^20 zones) and the DHT cache are not modelled; the
